@@ -313,6 +313,8 @@ def check(ctx, R):
             single_answer(R, "C06.l", Y.fn("yrs::transaction::ReadTxn::encode_diff_v" + ver), r"EncoderV%s::new$" % ver, "the bytes of the EncoderV%s the diff was written to" % ver)
         single_answer(R, "C06.l", Y.fn("yrs::transaction::ReadTxn::state_vector"), r"BlockStore::get_state_vector$", "BlockStore::get_state_vector")
     R.run("C06.l", _answers, ctx)
+    from . import c02 as _c02m
+    R.run("C06.m", lambda R, c: _c02m.rule_f(R, c, "C06.m"), ctx)
     from . import c02
     R.run("C06.j", lambda R, c: c02.rule_g(R, c, "C06.j"), ctx)
     R.run("C06.k", lambda R, c: c02.rule_h(R, c, "C06.k"), ctx)
